@@ -5,10 +5,13 @@ import lib
 from props import shortp8
 
 ID = 'C16'
-GEN_FILES = ['K_gfx', 'K_gff', 'K_map', 'K_sfx', 'K_music', 'K_p8png']
+GEN_FILES = ['K_gfx', 'K_gff', 'K_map', 'K_sfx', 'K_music', 'K_p8png',
+             # source pins of the hand-modelled modules (gen/kernels_pins.py)
+             'T_pins_gfx', 'T_pins_map', 'T_pins_gff', 'T_pins_sfx', 'T_pins_music', 'T_pins_util', 'T_pins_p8', 'T_pins_p8png']
 COQ_PROPERTY = 'theories/Properties/C16.vo'
 COQ_EXTRA = ['theories/Generated/K_gfx_selftest.vo', 'theories/Generated/K_sfx_selftest.vo',
-             'theories/Generated/K_music_selftest.vo', 'theories/Generated/K_p8png_selftest.vo']
+             'theories/Generated/K_music_selftest.vo', 'theories/Generated/K_p8png_selftest.vo',
+             'theories/Proofs/GfxPins.vo', 'theories/Proofs/MapPins.vo', 'theories/Proofs/GffPins.vo', 'theories/Proofs/SfxPins.vo', 'theories/Proofs/MusicPins.vo', 'theories/Proofs/UtilPins.vo', 'theories/Proofs/P8Pins.vo', 'theories/Proofs/P8PngPins.vo']
 MODEL = ('ExSections', 'sections_main.ml')
 MONITOR = ('MonC16', 'c16_mon_main.ml')
 SECS = ['gfx', 'map', 'gff', 'music', 'sfx']
@@ -136,6 +139,11 @@ def _malformed(rng, sec, tier):
     return out
 
 
+# the version number is part of both formats (second line of a .p8 file, byte 0x8000 of the .p8.png memory image);
+# 0 is the first .p8.png format
+_VERSIONS = [41, 0, 8, 1, 33, 255, 16]
+
+
 def generate(tier, rng):
     for sec in SECS:
         prev = None
@@ -153,14 +161,15 @@ def generate(tier, rng):
         n = shortp8.ROWS[sec]
         for j, k in enumerate(sorted({0, 1, 2, n // 2, n - 1, n})):
             d = rng.randbytes(shortp8.SIZE[sec]) if (j + si) % 3 else b'\xff' * shortp8.SIZE[sec]
-            yield {'kind': 'short', 'secs': {sec: [lib.hx(d), k]}, 'blank': (j + si) % 2 == 0}
+            yield {'kind': 'short', 'secs': {sec: [lib.hx(d), k]}, 'blank': (j + si) % 2 == 0,
+                   'version': _VERSIONS[(j + 2 * si) % len(_VERSIONS)]}
     for j in range(4 if tier == 'quick' else 40):
         secs = {}
         for sec in SECS + ['label']:
             n = shortp8.ROWS[sec]
             if rng.random() < 0.85:
                 secs[sec] = [lib.hx(rng.randbytes(shortp8.SIZE[sec])), rng.choice([0, 1, 2, n // 2, n - 1, n])]
-        yield {'kind': 'short', 'secs': secs, 'blank': j % 2 == 1}
+        yield {'kind': 'short', 'secs': secs, 'blank': j % 2 == 1, 'version': _VERSIONS[j % len(_VERSIONS)]}
     # steganography: all (channel value, byte) pairs
     yield {'kind': 'stego'}
     td = os.path.join(lib.REPO, 'tests', 'testdata')
@@ -244,6 +253,7 @@ def run_impl(case):
             g = P8Formatter.from_file(io.BytesIO(_short_file(case)))
             out['p8'] = {sec: (lib.hx(getattr(g, sec)._data) if getattr(g, sec) is not None else None)
                          for sec in SECS + ['label']}
+            out['p8_version'] = g.version
         except Exception as e:  # noqa
             out['p8_err'] = lib.exc_name(e)
             return out
@@ -252,8 +262,17 @@ def run_impl(case):
             P8PNGFormatter.to_file(g, fh, filename='short.p8.png')
             g2 = P8PNGFormatter.from_file(io.BytesIO(fh.getvalue()), filename='short.p8.png')
             out['png'] = {sec: lib.hx(getattr(g2, sec)._data) for sec in SECS}
+            out['png_version'] = g2.version
+            # the memory image the written picture carries, read pixel by pixel (lib.png_pixels, our own PNG reader)
+            out['png_version_byte'] = _version_byte(fh.getvalue())
         except Exception as e:  # noqa
             out['png_err'] = lib.exc_name(e)
+        try:
+            fh = io.BytesIO()
+            P8Formatter.to_file(g, fh, filename='short.p8')
+            out['p8_rewritten_header'] = lib.hx(b'\n'.join(fh.getvalue().split(b'\n')[:2]))
+        except Exception as e:  # noqa
+            out['p8w_err'] = lib.exc_name(e)
         return out
     if k == 'stego' and 'row' in case:
         # replay of one minimised pixel
@@ -306,8 +325,22 @@ def run_impl(case):
 FILE_ORDER = ['gfx', 'label', 'gff', 'map', 'sfx', 'music']
 
 
+def _version_byte(png_bytes):
+    """byte 0x8000 of the memory image in the picture (two low bits of A R G B of pixel 0x8000), through the harness's own
+    PNG reader; None when that reader is not available for this picture"""
+    try:
+        import pngref
+        w, h, rows = pngref.read(png_bytes)
+    except Exception:  # noqa
+        return None
+    i = 0x8000
+    y, x = divmod(i, w)
+    r, g, b, a = rows[y][4 * x:4 * x + 4]
+    return ((a & 3) << 6) | ((r & 3) << 4) | ((g & 3) << 2) | (b & 3)
+
+
 def _short_file(case):
-    out = [b'pico-8 cartridge // http://www.pico-8.com\nversion 41\n__lua__\nx=1\n']
+    out = [b'pico-8 cartridge // http://www.pico-8.com\nversion %d\n__lua__\nx=1\n' % case.get('version', 41)]
     for sec in FILE_ORDER:
         if sec in case['lines']:
             out.append(b'__' + sec.encode() + b'__\n')
@@ -359,6 +392,16 @@ def monitor_requests(case, obs):
     if k == 'short':
         # every region - also of the sections the file leaves out - must be the rows present + the empty default
         reqs = []
+        v = case.get('version', 41)
+        if obs['p8'] is not None:
+            # the version number: what the .p8 header says is the cart's version, is byte 0x8000 of the written
+            # picture's memory image, is read back from it, and is the header of the cart written as .p8 again
+            ok = obs.get('p8_version') == v and \
+                ('png_err' in obs or (obs.get('png_version') == v and obs.get('png_version_byte') in (v, None))) and \
+                ('p8w_err' in obs or obs.get('p8_rewritten_header') ==
+                 lib.hx(b'pico-8 cartridge // http://www.pico-8.com\nversion %d' % v))
+            if not ok:
+                reqs.append('f 0 . -')          # answers false
         for sec in SECS + ['label']:
             ls = '|'.join(case['lines'].get(sec, [])) or '.'
             if sec == 'label' and sec not in case['lines']:
